@@ -564,7 +564,7 @@ pub fn family_line12() -> Vec<PProblem> {
                 name: format!("line12/rel{with_relation}/obj{objective_set}"),
                 jobs,
                 vehicles: vec![v],
-                matrices: vec![PMatrix { profile: "car".into(), n, durations: line.clone(), distances: line, error_codes: None }],
+                matrices: vec![PMatrix { profile: "car".into(), n, durations: line.clone(), distances: line, error_codes: None, timestamp: None }],
                 relations: vec![],
                 clustering: None,
                 objectives: Some(if objective_set == 0 {
@@ -597,6 +597,9 @@ pub fn family_places(_tier: Tier) -> Vec<PProblem> {
         // three places, only the last is usable
         job("s_alt3", vec![task(Service, vec![place(4, 1., &[(0., 5.)], None), place(3, 1., &[(0., 5.)], None), place(2, 4., &[], None)], &[])]),
         job("d_near", vec![task(Delivery, vec![place(1, 3., &[], None)], &[1])]),
+        // an untagged place listed before a tagged one, and the other way round
+        job("d_mix", vec![task(Delivery, vec![place(4, 1., &[(0., 5.)], None), place(1, 1., &[], Some("second"))], &[1])]),
+        job("s_mix3", vec![task(Service, vec![place(3, 1., &[(0., 5.)], Some("first")), place(2, 2., &[], None), place(4, 1., &[(0., 5.)], Some("third"))], &[])]),
     ];
     let shifts = [
         PShift { start_loc: 0, start_earliest: 0., start_latest: None, end: Some((0, 1000.)), breaks: vec![], reloads: vec![] },
@@ -674,7 +677,9 @@ pub fn family_cluster() -> Vec<PProblem> {
                     if (ri + fi + si) % 3 != 0 && visiting == "return" {
                         continue;
                     }
-                    let mut p = base(format!("cluster/r{ri}/f{fi}/s{si}/{visiting}"), jobs.clone(), vec![vehicle_type("v", 2, &[4], vec![shift(ShiftKind::Closed)])]);
+                    // capacity 2 forces several tours with clustered stops
+                    for cap in [4i64, 2] {
+                    let mut p = base(format!("cluster/r{ri}/f{fi}/s{si}/{visiting}/c{cap}"), jobs.clone(), vec![vehicle_type("v", 3, &[cap], vec![shift(ShiftKind::Closed)])]);
                     let mut c = json!({
                         "type": "vicinity", "profile": {"matrix": "car"},
                         "threshold": {"duration": 30.0, "distance": 60.0},
@@ -688,8 +693,32 @@ pub fn family_cluster() -> Vec<PProblem> {
                         p.relations = vec![PRelation { kind: kind.to_string(), jobs: rel_jobs.iter().map(|s| s.to_string()).collect(), vehicle_id: "v_1".into(), shift_index: Some(0) }];
                     }
                     out.push(p.fit_matrices());
+                    }
                 }
             }
+        }
+    }
+    out
+}
+
+/// F-timedep: time-dependent routing: two matrices of one profile (in effect from 0 s / from 5 s on) whose distances and
+/// travel times differ; the departure is fixed (start.latest == start.earliest) so that only the first leg uses the first one.
+pub fn family_timedep() -> Vec<PProblem> {
+    let templates = core_templates();
+    let mut out = vec![];
+    for picks in multisets(templates.len(), 2).into_iter().chain(multisets(templates.len(), 3).into_iter().step_by(5)) {
+        for (si, sk) in [ShiftKind::StartLatest, ShiftKind::Open].iter().enumerate() {
+            let mut s = shift(*sk);
+            s.start_latest = Some(0.);
+            let mut p = base(format!("timedep/{picks:?}/s{si}"), instantiate(&templates, &picks), vec![vehicle_type("v", 2, &[3], vec![s])]);
+            let mut first = standard_matrix("car", 5);
+            first.timestamp = Some(0.);
+            let mut second = standard_matrix("car", 5);
+            second.timestamp = Some(5.);
+            second.durations = second.durations.iter().map(|d| if *d == 0 { 0 } else { d + 3 }).collect();
+            second.distances = second.distances.iter().map(|d| d * 2 + if *d == 0 { 0 } else { 7 }).collect();
+            p.matrices = vec![first, second];
+            out.push(p.fit_matrices());
         }
     }
     out
